@@ -286,7 +286,7 @@ bool OSSLEVPSymmetricAlgorithm::encryptFinal(ByteString& encryptedData)
 	// Resize the output block
 	encryptedData.resize(outLen);
 
-	if (mode == SymMode::GCM)
+	if (mode == SymMode::GCM && tagBytes > 0)
 	{
 		ByteString tag;
 		tag.resize(tagBytes);
@@ -482,7 +482,8 @@ bool OSSLEVPSymmetricAlgorithm::decryptFinal(ByteString& data)
 		}
 
 		// Set the tag
-		EVP_CIPHER_CTX_ctrl(pCurCTX, EVP_CTRL_GCM_SET_TAG, tagBytes, &aeadBuffer[aeadBuffer.size()-tagBytes]);
+		if (tagBytes > 0)
+			EVP_CIPHER_CTX_ctrl(pCurCTX, EVP_CTRL_GCM_SET_TAG, tagBytes, &aeadBuffer[aeadBuffer.size()-tagBytes]);
 
 		// Prepare the output block
 		data.resize(aeadBuffer.size() - tagBytes + getBlockSize());
